@@ -77,6 +77,63 @@ Definition compare_stored_gtf (checkpath : bool) (d : dict) (g : path) (db : pat
 Definition find_converted_gtf (checkpath : bool) (d : dict) (db : path) (fs : fsys) : option path :=
   match find (fun ke => compare_stored_gtf checkpath d (fst ke) db fs) d with Some ke => Some (fst ke) | None => None end.
 
+(* ------------------------------------------------------------------ cache-hit predicates (src/read_mapper.py) *)
+(* index_config.json / bed_config.json / alignment_config.json: the same shape - a key, the stored file, recorded
+   modification times, for the index the k-mer size the data type asks for *)
+Fixpoint aget {A} (d : list (path * A)) (k : path) : option A :=
+  match d with [] => None | (k', e) :: t => if k' =? k then Some e else aget t k end.
+Definition afield {A B} (d : list (path * A)) (k : path) (f : A -> option B) : option B :=
+  match aget d k with Some e => f e | None => None end.
+Definition oz_is (a : Z) (b : option Z) : bool := match b with Some y => a =? y | None => false end.
+
+(* find_stored_index(args): key = abspath(args.reference); KMER_SIZE[args.data_type] == kmer_size *)
+Record ientry := mkientry { i_index : option path; i_ref_mtime : option Z; i_index_mtime : option Z; i_kmer : option Z }.
+Definition find_stored_index (d : list (path * ientry)) (ref : path) (kmer : Z) (fs : fsys) : option path :=
+  match afield d ref i_index with
+  | None => None
+  | Some idx =>
+      if exists_ fs ref && mtime_is fs ref (afield d ref i_ref_mtime) then
+        if exists_ fs idx && mtime_is fs idx (afield d ref i_index_mtime) then
+          if oz_is kmer (afield d ref i_kmer) then Some idx else None
+        else None
+      else None
+  end.
+
+(* find_stored_bed(args): key = abspath(args.genedb) *)
+Record bentry := mkbentry { b_bed : option path; b_ref_mtime : option Z; b_bed_mtime : option Z }.
+Definition find_stored_bed (d : list (path * bentry)) (db : path) (fs : fsys) : option path :=
+  match afield d db b_bed with
+  | None => None
+  | Some bed =>
+      if exists_ fs db && mtime_is fs db (afield d db b_ref_mtime) then
+        if exists_ fs bed && mtime_is fs bed (afield d db b_bed_mtime) then Some bed else None
+      else None
+  end.
+
+(* find_stored_alignment(fastq, annotation, args): the key is the string "<fastq>_aligned_to_<index>[_<annotation>]" (one id
+   per string here); os.path.getmtime of the index / the annotation is called unguarded (FileNotFoundError = Raises 2) *)
+Record alentry := mkalentry { a_bam : option path; a_index_mtime : option Z; a_fastq_mtime : option Z; a_bam_mtime : option Z; a_ann_mtime : option Z }.
+Definition find_stored_alignment (d : list (path * alentry)) (key fastq index : path) (ann : option path) (fs : fsys) : outcome (option path) :=
+  match afield d key a_bam with
+  | None => Ok None
+  | Some bam =>
+      let rest := if exists_ fs fastq && mtime_is fs fastq (afield d key a_fastq_mtime) then
+                    if exists_ fs bam && mtime_is fs bam (afield d key a_bam_mtime) then Ok (Some bam) else Ok None
+                  else Ok None in
+      match fs index with
+      | None => Raises 2%N
+      | Some _ =>
+          if negb (mtime_is fs index (afield d key a_index_mtime)) then Ok None
+          else match ann with
+               | None => rest
+               | Some ap => match fs ap with
+                            | None => Raises 2%N
+                            | Some _ => if negb (mtime_is fs ap (afield d key a_ann_mtime)) then Ok None else rest
+                            end
+               end
+      end
+  end.
+
 (* ------------------------------------------------------------------ processes *)
 Inductive op :=
 | OExists        (* set_configs_directory: os.path.exists(config_path); remembers "absent" *)
@@ -219,6 +276,55 @@ Definition abs_file (sh : shared) : option (option (list (path * (option path * 
   end.
 Definition abs_status (p : proc) : Z * Z :=
   match p_st p with Running => (0, 0) | Done None => (1, -1) | Done (Some r) => (1, r) | Crashed k => (2, k) end.
+
+(* ------------------------------------------------------------------ creation of $HOME/.config/IsoQuant *)
+(* The first thing set_configs_directory does, before any cache file is touched: os.makedirs(config_dir, exist_ok=True).
+   The directory is a separate piece of shared state (present / absent) and these steps precede all steps on the cache
+   files, so they are modelled on their own:  DMake = makedirs(exist_ok=True), one atomic idempotent step (mkdir(2) is
+   atomic, EEXIST is swallowed);  check-then-create = DCheck (os.path.isdir, remembered) followed by DCreate
+   (os.makedirs without exist_ok when the check said "missing": FileExistsError if the directory has appeared since). *)
+Inductive dop := DMake | DCheck | DCreate.
+Record dproc := mkdproc { d_prog : list dop; d_saw_missing : bool; d_failed : bool }.
+Definition dstep1 (dir : bool) (p : dproc) : bool * dproc :=
+  if d_failed p then (dir, p) else
+  match d_prog p with
+  | [] => (dir, p)
+  | DMake :: r => (true, mkdproc r (d_saw_missing p) false)
+  | DCheck :: r => (dir, mkdproc r (negb dir) false)
+  | DCreate :: r => if d_saw_missing p then (if dir then (dir, mkdproc [] true true) else (true, mkdproc r true false))
+                    else (dir, mkdproc r false false)
+  end.
+Fixpoint dstep_nth (dir : bool) (ps : list dproc) (i : nat) : bool * list dproc :=
+  match ps, i with
+  | [], _ => (dir, [])
+  | p :: t, O => let '(d', p') := dstep1 dir p in (d', p' :: t)
+  | p :: t, Datatypes.S j => let '(d', t') := dstep_nth dir t j in (d', p :: t')
+  end.
+Definition drun (dir : bool) (ps : list dproc) (sched : list nat) : bool * list dproc :=
+  fold_left (fun st i => dstep_nth (fst st) (snd st) i) sched (dir, ps).
+Definition prog_mkdir (idempotent : bool) : list dop := if idempotent then [DMake] else [DCheck; DCreate].
+Definition dp (prog : list dop) (saw : bool) : dproc := mkdproc prog saw false.
+(* the event a step performs in the real process: 9 = os.path.isdir, 10 = os.makedirs; None = nothing happens *)
+Definition dop_event (p : dproc) : option Z :=
+  if d_failed p then None else
+  match d_prog p with
+  | DMake :: _ => Some 10 | DCheck :: _ => Some 9
+  | DCreate :: _ => if d_saw_missing p then Some 10 else None
+  | [] => None
+  end.
+Fixpoint dtrace (dir : bool) (ps : list dproc) (sched : list nat) : list (nat * Z) :=
+  match sched with
+  | [] => []
+  | i :: t => match nth_error ps i with
+              | Some p => match dop_event p with Some c => [(i, c)] | None => [] end
+              | None => []
+              end ++ let st := dstep_nth dir ps i in dtrace (fst st) (snd st) t
+  end.
+
+(* check-then-create: both runs see the directory missing, the slower one dies with FileExistsError *)
+Example check_then_create_fails :
+  map d_failed (snd (drun false [dp (prog_mkdir false) false; dp (prog_mkdir false) false] [0; 1; 0; 1]%nat)) = [false; true].
+Proof. vm_compute. reflexivity. Qed.
 
 (* ------------------------------------------------------------------ witnesses against the in-place protocol *)
 Definition g1 := 1. Definition g2 := 2. Definition o1 := 11. Definition o2 := 12. Definition o3 := 13.
